@@ -3,10 +3,12 @@ from ..core import Case, hx, unhx
 from .. import gen
 from ..gen import Opt, schema_lines, LIST, MULTI, TITLE, NOCASE, COMMENTS, DEPRECATED, KEYSTRVAL, NO_TITLE_DUPES, dbits
 
-THEOREMS = ["C05_str", "C05_int", "C05_bool", "C05_null_prints_empty", "dqRun_escBody", "decDigits_spec"]
+THEOREMS = ["C05_str", "C05_int", "C05_bool", "C05_null_prints_empty", "dqRun_escBody", "decDigits_spec", "C05_name", "C05_name_plain", "C05_name_quoted"]
 PARTIAL = ("Proved (leaf round trips, unbounded): every string or title without NUL printed by cfg_print scans back to itself in any environment "
            "(C05_str: quotes, backslashes, '${', newlines, comment markers - induction over the bytes); every long printed with %ld converts "
-           "back to itself (C05_int, via the numeral-grammar theorem of C04 and a digit lemma); booleans (C05_bool). Not proved: the float leaf "
+           "back to itself (C05_int, via the numeral-grammar theorem of C04 and a digit lemma); booleans (C05_bool); every option name - the keys of a "
+           "free-form section can be any string - is written so that the scanner returns exactly it as one token in front of what follows (C05_name: "
+           "as it is when it is a plain word, quoted otherwise; found and fixed F33). Not proved: the float leaf "
            "(printf %f then strtod reproduces the printed text - argued in DESIGN.md, checked by the oracle on boundary doubles), and the "
            "whole-tree theorems C05_tokens / C05_roundtrip / C05_fixpoint (print then parse of an arbitrary reachable tree); these are what the "
            "implementation-side oracle (print, parse into a fresh context, compare, print, compare, cycle again) checks on every case.")
@@ -32,7 +34,7 @@ def printable_schema(rng):
     def clean(os):
         res = []
         for o in os:
-            fl = o.flags & ~(DEPRECATED | gen.DROP | KEYSTRVAL)
+            fl = o.flags & ~(DEPRECATED | gen.DROP)
             res.append(Opt(o.name, o.ty, fl, o.default, "-", clean(o.subs)))
         return res
     return clean(opts)
@@ -51,7 +53,9 @@ def generate(rng, tier):
             ctxflags = rng.choice([0, 0, 0, COMMENTS, NOCASE])
             titles = [rbytes(rng, 5) or b"t" for _ in range(4)]
             titles = [t for t in titles if t]
-            toks = gen.gen_items(rng, opts, ctxflags, maxitems=5, titles=titles)
+            # keys of free-form sections: any bytes (F33: names that are not plain words are printed quoted)
+            kv_keys = [rbytes(rng, 4) for _ in range(3)] + [b"a b", b"x=y", b"p//q", b"", b"k#", b"q\"k", b"it's", b"{b}"]
+            toks = gen.gen_items(rng, opts, ctxflags, maxitems=5, titles=titles, kv_keys=kv_keys)
             lines = sl + ["X 0 %d" % ctxflags, "PB 0 " + hx(b" ".join(toks) + b"\n")]
             nulls = False
             for p, o in rng.sample(allo, min(4, len(allo))):
